@@ -98,6 +98,14 @@ def cancel_oracle(spec: dict, run, in_flight_ords: set | None = None) -> tuple[l
             bad = [t for t in final[r]["tasks"] if t[1] in ("CANCELED", "NOT_STARTED", "RUNNING")]
             if bad and fs != "SKIPPED":
                 out.append(viol(f"C17/stage-outcome-with-unfinished-tasks{mech}", f"{r} ends {fs} with tasks {final[r]['tasks']}"))
+            # ... and "all of its work had been executed" literally: every task that ends with an outcome of its
+            # own must have a body execution on record (begun before tau - later ones are flagged above)
+            if fs != "SKIPPED":
+                sid = ids.get(r)
+                ran = {x["task"] for x in run.ledger if x["stage_id"] == sid}
+                ghost = [t for i, t in enumerate(final[r]["tasks"]) if t[1] in ("SUCCEEDED", "FAILED_CONTINUE", "TERMINAL", "STOPPED") and i not in ran]
+                if ghost:
+                    out.append(viol(f"C17/task-outcome-without-execution{mech}", f"{r} was {at_tau[r]} at the cancel commit and ends {fs}; tasks {ghost} carry an outcome although their body never ran"))
             obs["finished_in_effect_kept_outcome"] += 1
     for r in sorted(top - unfinished):
         if r in final and final[r]["status"] != at_tau.get(r):
